@@ -213,28 +213,71 @@ def lean_row(r):
     return f'⟨"{r[0]}", "{r[1]}", "{r[2]}"⟩'
 
 
+def probe(repo: Path, parts):
+    """behavioural fallback: harness/translators/tr_cli_probe.py in a subprocess on the tree under check"""
+    import json
+    import os
+    import subprocess
+    import sys
+
+    here = Path(__file__).resolve().parent
+    env = dict(os.environ, TT_REPO=str(repo), OMP_NUM_THREADS="2")
+    env.pop("PYTHONPATH", None)
+    try:
+        r = subprocess.run([sys.executable, str(here / "tr_cli_probe.py"), ",".join(parts)], env=env, capture_output=True,
+                           text=True, timeout=300)
+        return json.loads(r.stdout.strip().splitlines()[-1])
+    except Exception as e:  # noqa: BLE001
+        return {k: {"value": {}, "notes": [f"probe failed: {type(e).__name__}: {e}"[:160]]} for k in parts}
+
+
 def translate(repo: Path):
+    """AST reading first (exact on the shapes it knows).  A part whose source shape is not recognised (helpers split off,
+    shared routines, comprehensions, the assembly moved to another module, …) is derived from BEHAVIOUR instead: the public
+    functions / the command line are run on probes and the table is read off what they emit (tr_cli_probe.py).  Only if
+    that fails too is `recognised := false` emitted.  The if/elif skeleton of a behaviourally derived table is not read
+    from the source; the harness compares the real functions with the Lean model on a grid of probe parameters and on
+    every recorded call instead."""
     repo = Path(repo)
     notes, ok = [], True
     ref = {"unit": ("?", "?", "?"), "lower0": ("?", "?", "?"), "lowerPos": ("?", "?", "?"), "simplex": ("?", "?", "?")}
+    failed = {}
     try:
         mu = analyse_make_unconstrained((repo / "torchtree/cli/utils.py").read_text())
-    except (Unrecognised, SyntaxError) as e:
-        mu, ok = dict(ref), False
-        notes.append(f"make_unconstrained unrecognised: {e}")
-    advi_src = (repo / "torchtree/cli/advi.py").read_text()
+    except (Unrecognised, SyntaxError, OSError) as e:
+        mu, failed["unconstrain"] = None, str(e)
     try:
-        mf = analyse_meanfield(advi_src)
-    except (Unrecognised, SyntaxError) as e:
-        mf, ok = dict(ref), False
-        notes.append(f"create_meanfield unrecognised: {e}")
+        mf = analyse_meanfield((repo / "torchtree/cli/advi.py").read_text())
+    except (Unrecognised, SyntaxError, OSError) as e:
+        mf, failed["meanfield"] = None, str(e)
     post = {}
     for mod, fname in (("hmc", "build_hmc"), ("mcmc", "build_mcmc"), ("advi", "build_advi")):
         try:
             post[mod] = analyse_post((repo / f"torchtree/cli/{mod}.py").read_text(), fname)
-        except (Unrecognised, SyntaxError) as e:
-            post[mod], ok = {"tree": False, "remove": "never"}, False
-            notes.append(f"{mod} post-processing unrecognised: {e}")
+        except (Unrecognised, SyntaxError, OSError) as e:
+            post[mod] = None
+            failed["post"] = failed.get("post", "") + f" {mod}: {e};"
+    if failed:
+        res = probe(repo, sorted(failed))
+        for part, why in failed.items():
+            val, pn = res.get(part, {}).get("value", {}), res.get(part, {}).get("notes", [])
+            if part in ("unconstrain", "meanfield"):
+                good = set(val) == set(ref) and all(len(v) == 3 and "?" not in v for v in val.values())
+                table = {k: tuple(v) for k, v in val.items()} if good else dict(ref)
+                if part == "unconstrain":
+                    mu = table
+                else:
+                    mf = table
+            else:
+                good = set(val) == {"hmc", "mcmc", "advi"}
+                for mod in ("hmc", "mcmc", "advi"):
+                    if post[mod] is None:
+                        post[mod] = val[mod] if good else {"tree": False, "remove": "never"}
+            if good:
+                notes.append(f"{part}: source shape not recognised ({why.strip()[:120]}); table derived from behaviour (probes)")
+            else:
+                ok = False
+                notes.append(f"{part} unrecognised: {why.strip()[:160]}; behavioural derivation failed: {'; '.join(pn)[:200]}")
 
     def disp(d):
         return "⟨" + ", ".join(lean_row(d[k]) for k in ("unit", "lower0", "lowerPos", "simplex")) + "⟩"
